@@ -170,6 +170,20 @@ def eval_layout(case, thr_menu=None, reductions=None):
     return OK(outcome=(tuple(case) if len(case) < 20 else (len(case), hash(tuple(case))), tuple(outs)), nontrivial=nt, evals=nev)
 
 
+NEG_CYC = [(4, 4, 8), (4, -1, 8), (-1, 4, 8), (4, 1, 8)]
+
+
+def eval_layout_neg(case):
+    """Layouts over cycle kinds with a NEGATIVE flank voltage (a reversed flank, e.g. on a steep drift): ratios with a negative member
+    are negative and the consistency is clipped at 0 - in the table and in the one-sided edge values."""
+    saved = list(CYC)
+    try:
+        CYC[:] = NEG_CYC + [saved[-1]]
+        return eval_layout([(c, .9) for c in case], thr_menu=[THR_MENU[2], THR_MENU[0]], reductions=[0, .1])
+    finally:
+        CYC[:] = saved
+
+
 def eval_layout_long(case):
     """Tables with MANY bursts: R runs of qualifying cycles (lengths cycling through a pattern) separated by cycles that fail
     monotonicity or amplitude consistency - run numbering / counters keyed on the number of bursts (128, 256, ...)."""
@@ -322,6 +336,8 @@ def spaces(tier, seed):
     Rs = [127, 128, 129, 255, 256, 257, 258, 272] + ([] if q else [126, 130, 254, 300, 511, 512, 513, 530])
     out.append(ProductSpace('layouts-many-bursts', [Rs, [0, 2]], eval_layout_long,
                             describe='synthetic tables with 126..%d bursts (run lengths cycling through a pattern) x 2 threshold sets x 2 reductions x 2 centrings' % Rs[-1]))
+    out.append(ProductSpace('layouts-negative-flanks', [[0, 1, 2, 3]] * 5, eval_layout_neg, min_len=3,
+                            describe='every table of 3..5 cycles over kinds with reversed (negative) flank voltages'))
     from bcmc.explore import ListSpace
     out.append(ListSpace('long-recordings', [['@A', 'peak'], ['@A', 'trough'], ['@E', 'peak'], ['@E', 'trough'], ['@D', 'trough']], eval_pipeline_long,
                          describe='long real-valued recordings: recompute_edges against the one-sided definitions and the rule'))
